@@ -388,17 +388,18 @@ Definition start_code (f : fs) (cfg : list dbcfg) : Z :=
   match startup f cfg with Ok _ => 0 | Err e => e | Panic _ => -1 end.
 
 (* complete binaries: the content the path had in the initial state, or the archive's binary at the new path *)
+Definition new_binary (o : c27_op) (p : path) (c : bytes) : bool :=
+  match o with
+  | DoInstall i =>
+      path_eqb p (N i ++ [dir_of (i_name i)])
+      && match find (fun m => bytes_eqb (fst m) (dir_of (i_name i))) (i_members i) with
+         | Some m => bytes_eqb c (snd m)
+         | None => false
+         end
+  | DoAdd _ => false
+  end.
 Definition good_binary (f0 : fs) (o : c27_op) (p : path) (c : bytes) : bool :=
-  (match fs_get f0 p with Some (File c0) => bytes_eqb c c0 | _ => false end)
-  || match o with
-     | DoInstall i =>
-         path_eqb p (N i ++ [dir_of (i_name i)])
-         && match find (fun m => bytes_eqb (fst m) (dir_of (i_name i))) (i_members i) with
-            | Some m => bytes_eqb c (snd m)
-            | None => false
-            end
-     | DoAdd _ => false
-     end.
+  (match fs_get f0 p with Some (File c0) => bytes_eqb c c0 | _ => false end) || new_binary o p c.
 
 (* the binary a database would run.  Start-up resolves every configured database first: if one of them fails,
    no query runs. *)
@@ -424,17 +425,24 @@ Inductive c27_case :=
 | KSteps (f0 : fs) (o : c27_op) (obs : list op_obs)
 (* the command killed before step k (k = number of steps: not killed), [torn] bytes of a write step written:
    the tree below ~/.octosql afterwards and what the probes saw *)
-| KCrash (f0 : fs) (cfg : list dbcfg) (o : c27_op) (k torn : Z) (tree_after : fs) (pr : probe).
+| KCrash (f0 : fs) (cfg : list dbcfg) (o : c27_op) (k torn : Z) (tree_after : fs) (pr : probe)
+(* two commands: the first killed as above, then the second run to completion on what the first left behind *)
+| KCrash2 (f0 : fs) (cfg : list dbcfg) (a : c27_op) (k torn : Z) (b : c27_op) (tree_after : fs) (pr : probe).
+
+Definition probes_tie (f : fs) (cfg : list dbcfg) (good : path -> bytes -> bool) (after : fs) (pr : probe) : bool :=
+  fs_same f after && fs_consistent f
+  && (start_code f cfg =? pr_start pr)
+  && all2 (fun d '(n, ob) => bytes_eqb (db_name d) n && outcome_tie vobs_tie (db_probe f cfg good d) ob) cfg (pr_dbs pr)
+  && Bool.eqb ((start_code f cfg =? 0) && repos_ok f) (pr_repos pr).     (* no query runs if start-up fails *)
 
 Definition c27_tie (c : c27_case) : bool :=
   match c with
   | KSteps f0 o obs => all2 op_obs_eqb (map obs_of_op (ops_of f0 o)) obs
   | KCrash f0 cfg o k torn after pr =>
-      let f := crash (ops_of f0 o) f0 (Z.to_nat k) (Z.to_nat torn) in
-      fs_same f after && fs_consistent f
-      && (start_code f cfg =? pr_start pr)
-      && all2 (fun d '(n, ob) => bytes_eqb (db_name d) n && outcome_tie vobs_tie (db_probe f cfg (good_binary f0 o) d) ob) cfg (pr_dbs pr)
-      && Bool.eqb ((start_code f cfg =? 0) && repos_ok f) (pr_repos pr)     (* no query runs if start-up fails *)
+      probes_tie (crash (ops_of f0 o) f0 (Z.to_nat k) (Z.to_nat torn)) cfg (good_binary f0 o) after pr
+  | KCrash2 f0 cfg a k torn b after pr =>
+      let fc := crash (ops_of f0 a) f0 (Z.to_nat k) (Z.to_nat torn) in
+      probes_tie (run_ops (ops_of fc b) fc) cfg (fun p c => good_binary f0 a p c || new_binary b p c) after pr
   end.
 
 (* has the new version directory been renamed into place among these steps? *)
@@ -447,6 +455,9 @@ Definition moved_in (o : c27_op) (done : list fs_op) : bool :=
 (* the property on the observation alone: if everything started and every database ran a complete binary before,
    then after the crash everything starts, every database runs a complete binary — the version it ran before, or
    the installed one once its directory has been renamed into place — and repositories stay readable *)
+Definition version_of (o : c27_op) (va : version_obs) : bool :=
+  match o with DoInstall i => vobs_tie (i_version i) va | DoAdd _ => false end.
+
 Definition c27_spec (c : c27_case) : bool :=
   match c with
   | KSteps _ _ _ => true
@@ -457,9 +468,20 @@ Definition c27_spec (c : c27_case) : bool :=
         (pr_start pr =? 0)
         && all2 (fun b '(_, ob) =>
                    match b, ob with
-                   | Ok vb, Ok va =>
-                       vobs_tie vb va
-                       || (finished && match o with DoInstall i => vobs_tie (i_version i) va | DoAdd _ => false end)
+                   | Ok vb, Ok va => vobs_tie vb va || (finished && version_of o va)
+                   | _, _ => false
+                   end) before (pr_dbs pr)
+        && pr_repos pr
+      else true
+  | KCrash2 f0 cfg a k torn b after pr =>
+      (* the second command finished: its version may run; the first one's only if it had been renamed into place *)
+      let before := map (fun d => db_probe f0 cfg (good_binary f0 a) d) cfg in
+      let finished := moved_in a (firstn (Z.to_nat k) (ops_of f0 a)) in
+      if (start_code f0 cfg =? 0) && forallb is_ok before && repos_ok f0 then
+        (pr_start pr =? 0)
+        && all2 (fun b0 '(_, ob) =>
+                   match b0, ob with
+                   | Ok vb, Ok va => vobs_tie vb va || (finished && version_of a va) || version_of b va
                    | _, _ => false
                    end) before (pr_dbs pr)
         && pr_repos pr
